@@ -166,7 +166,7 @@ def replay(exe, sc, idx):
         warn_expected = sc["status"] != 0
         if warn_expected and not r.err:
             return "no diagnostic although the status is %d" % sc["status"]
-        if not warn_expected and r.err:
+        if not warn_expected and r.err and "v" not in opts:
             return "diagnostic on a clean run: %r" % r.err[:120]
         return None
     finally:
